@@ -480,8 +480,23 @@ func c18Refresh(c *Ctx) {
 		}
 		okPhi := phi != nil
 		if phi != nil {
-			for _, e := range flattenPhi(phi) {
-				if !isUntilNext(e) {
+			var chk func(v ssa.Value, depth int) bool
+			chk = func(v ssa.Value, depth int) bool {
+				if v == ssa.Value(phi) || depth > 4 {
+					return false // the old delay is carried over unchanged
+				}
+				if p2, ok := v.(*ssa.Phi); ok {
+					for _, e := range p2.Edges {
+						if !chk(e, depth+1) {
+							return false
+						}
+					}
+					return true
+				}
+				return isUntilNext(v)
+			}
+			for _, e := range phi.Edges {
+				if !chk(e, 0) {
 					okPhi = false
 				}
 			}
